@@ -205,6 +205,11 @@ static Profile profile(const std::string& name, bool T) {
         p.cfgs.push_back({"m0", {PS(0, 1000000, 0)}, PS(1, 1000, 0)});
         p.cfgs.push_back({"m10000_h4", {PS(10000, 1, 4), PS(2, 1, 2)}, PS(1, 1000, 0)});
         p.runs = {{"", S_MEM, 0}}; p.depth_q = 4; p.depth_t = 5;
+    } else if (name == "times") {
+        p.alphabet = {"qr2", "qr4", "qr3", "qr1", "mm0", "mm3", "mm1", "aec0"};
+        for (int h : {0, 5, 1}) p.cfgs.push_back({"h" + std::to_string(h), {PS(10000, 1000000, h)}, PS(2, 1000, 0)});
+        p.cfgs.push_back({"h5_t1", {PS(10000, 1, 5)}, PS(2, 1000, 0)});
+        p.runs = {{"", S_MEM, 0}}; p.depth_q = 4; p.depth_t = 5;
     } else if (name == "counts") {
         p.alphabet = {"qr0s1", "qr1", "qr4", "aec1", "mm0", "mm3s2", "wb", "rotx", "rotn", "act1"};
         p.cfgs.push_back({"m2", {PS(2, 1000000, 0), PS(1, 1000, 3, true)}, PS(3, 1000, 0)});
